@@ -270,6 +270,30 @@ def same(t1, t2):
     return t1.shape == t2.shape and bool(((t1 == t2) | (torch.isnan(t1) & torch.isnan(t2))).all())
 
 
+def aliasing(kept, snaps, later=()):
+    """Results are fresh values: every retained result (the tensor itself, not a copy) must still equal
+    its value when it was handed out, and no two results may share storage."""
+    allr = list(kept) + list(later)
+    for i, (kt, sn) in enumerate(zip(kept, snaps)):
+        if not same(kt, sn):
+            return (f"result {i + 1}, kept by the caller, changed after later call(s) with other keypoints and the same output shape "
+                    f"{tuple(kt.shape)}: results are not fresh values")
+        for j, lt in enumerate(allr):
+            if lt is not kt and j > i and lt.numel() and kt.numel() and \
+                    kt.untyped_storage().data_ptr() == lt.untyped_storage().data_ptr():
+                return f"result {i + 1} and the result of later call {j + 1 - len(kept) if j >= len(kept) else j + 1} share one storage"
+    return None
+
+
+def jittered(case):
+    """Same shapes, other keypoints: every animal shifted, list order reversed."""
+    c = copy.deepcopy(case)
+    c["animals"] = [[[None if v is None else v + 1.25 for v in p] for p in a] for a in reversed(c["animals"])]
+    for k in ("extra_sample", "stream", "history"):
+        c.pop(k, None)
+    return c
+
+
 def run_impl_raw(case, animals=None):
     """Calls the real code.  Returns ('ok', torch tensor as returned, canonical ndarray copy) |
     ('raise', cls, msg).  For generate_pafs-type cases the canonical array is (2E, h, w) (the
@@ -305,12 +329,16 @@ def run_impl_raw(case, animals=None):
                 raw = r[1]
                 r = ("ok", r[1].reshape(2 * E, len(yv), len(xv)))
         else:   # one make_pafs call per animal, stacked: (I, E, 2, h, w)
-            outs = []
+            outs, kept, snaps = [], [], []
             for a in range(len(animals)):
                 r = call(em.make_pafs, xv, yv, srcs[a], dsts[a], sg)
                 if r[0] == "raise":
                     return r
                 outs.append(r[1].numpy().copy())
+                kept.append(r[1]); snaps.append(r[1].clone())       # RETAINED: re-read after the later calls
+            bad = aliasing(kept, snaps)
+            if bad:
+                return ("raise", "ResultAliased", "make_pafs: " + bad)
             arr = np.array(outs).reshape(len(animals), E, 2, len(yv), len(xv))
             return ("ok", torch.tensor(arr), arr)
     else:
@@ -613,19 +641,26 @@ def impl_and_oracle(case):
     must not be modified by a later call)."""
     r = run_impl_raw(case)
     if r[0] == "raise":
-        if r[1] in ("HistoryDependent", "StateMutated", "StreamDependent"):
+        if r[1] in ("HistoryDependent", "StateMutated", "StreamDependent", "ResultAliased"):
             return r, [(r[2], [])], []
         return r, [(f"implementation raised {r[1]}: {r[2]}", [])], []
     raw, snap = r[1], r[1].clone()
-    singles = []
+    singles, singles_raw = [], []
     for a in case["animals"]:
         ra = run_impl_raw(case | {"extra_sample": None}, animals=[a])
         if ra[0] == "raise":
             return ("ok", r[2]), [(f"implementation raised on a single animal {ra[1]}: {ra[2]}", [])], []
         singles.append(ra[2])
+        singles_raw.append(ra[1])
+    later = list(singles_raw)
+    rj = run_impl_raw(jittered(case))           # one more call of the same output shape with other keypoints
+    if rj[0] == "ok":
+        later.append(rj[1])
     fails = oracle(case, r[2], singles)
-    if not same(raw, snap):
-        fails.insert(0, ("an earlier result was modified by a later call (returned tensor aliases internal state)", []))
+    bad = aliasing([raw], [snap], later)
+    if bad:
+        fails.insert(0, (f"call history ({1 + len(later)} calls of the same output shape): {bad} "
+                         f"(an earlier result was modified by / aliases a later call's result)", []))
     return ("ok", r[2]), fails, singles
 
 
@@ -775,9 +810,18 @@ def kept_mismatch(case, reply, singles):
 def check_case(chk, case, reply):
     kind = case["kind"]
     if kind in ("dist", "mkpafs", "mpafs"):
-        r = run_impl(case)
+        rr = run_impl_raw(case)
+        if rr[0] == "ok" and kind == "mpafs":        # two-call history with the first result RETAINED
+            snap = rr[1].clone()
+            r2 = run_impl_raw(jittered(case))
+            bad = aliasing([rr[1]], [snap], [r2[1]] if r2[0] == "ok" else [])
+            if bad:
+                rr = ("raise", "ResultAliased", "make_multi_pafs: " + bad)
+        r = rr if rr[0] == "raise" else ("ok", rr[2])
         if r[0] == "raise":
-            chk.disagree(f"{kind}: implementation raised where the model does not", case, list(r), "ok")
+            chk.disagree(f"{kind}: implementation raised / aliased results where the model does not", case, list(r), "ok")
+            if r[1] == "ResultAliased":
+                chk.fail("C05 fails on the implementation (call history): " + r[2], case, None, ())
             return True
         why = compare(chk, case, r[1], reply)
         if why:
@@ -963,7 +1007,9 @@ if __name__ == "__main__":
         rule="entry points distance_to_edge, make_pafs, make_multi_pafs, generate_pafs (flattened / not), "
              "PartAffinityFieldsGenerator (flattened / not; as HISTORIES over one generator object: 1-3 passes with a fresh iter() each, "
              "35% with pass 2 started while pass 1 is suspended; 85% as STREAMS of 2-4 examples with different image sizes (x0.4 .. x2.5, both "
-             "orders) through the same object, every example observed in turn and required to equal generate_pafs on it alone; every pass must be bit-identical to the first, which is compared with the "
+             "orders) through the same object, every call followed by further calls of the same output shape with other keypoints after which the "
+             "RETAINED earlier result must be unchanged and share no storage with later results (make_pafs, make_multi_pafs, generate_pafs, "
+             "DataPipe), every example observed in turn and required to equal generate_pafs on it alone; every pass must be bit-identical to the first, which is compared with the "
              "stateless model, and sigma/output_stride/edge_inds/flatten_channels must stay unchanged); edge_inds as int64 tensor or, as production does, torch.Tensor(list) "
              "(float32); 0-4 animals x 1-5 nodes on the k/16 lattice in modes inside / integer / wholly outside / partly outside / "
              "last-stride strip and x=0,y=0 lines / sub-pixel edges / coincident nodes, NaN patterns (node, one coordinate, whole "
